@@ -1146,6 +1146,24 @@ def run_light(ctx, runner, cli, cools, uris, thorough):
         exp = [["name", "length"]] + [[n, str(blk[-1][2])] for n, blk in zip(cool.names, cool.blocks)]
         if code != 0 or read_tsv(text) != exp:
             ctx.fail(case, {"why": "dump -t chroms differs from the chromosome table", "expected": exp, "got": read_tsv(text) if code == 0 else str(code)}, None)
+    # --out: a plain and a gzipped file hold exactly what is streamed to stdout
+    import gzip
+    for ci, cool in enumerate(cools[:4]):
+        o = default_opts(); o["header"] = True; o["join"] = True; o["balanced"] = cool.weights is not None; o["k"] = 2
+        code0, text0 = invoke(runner, cli, cli_args(o, uris[ci]))
+        for ext in (".tsv", ".tsv.gz"):
+            case = {"kind": "dump-out", "cool": cool.spec(), "ext": ext}
+            ctx.case(case, nontrivial=bool(cool.px), kind="dump:--out")
+            outp = str(ctx.tmp / f"out{ci}{ext}")
+            code, text = invoke(runner, cli, cli_args(o, uris[ci])[:-1] + ["-o", outp, uris[ci]])
+            try:
+                got = gzip.open(outp, "rt").read() if ext.endswith(".gz") else open(outp).read()
+            except Exception as e:
+                got = "unreadable:" + type(e).__name__
+            if code != 0 or code0 != 0 or got != text0 or text != "":
+                ctx.fail(case, {"why": "dump -o differs from the stdout stream", "exit": str(code), "file": got[:300], "stdout": text0[:300]}, None)
+            if os.path.exists(outp):
+                os.remove(outp)
     # zoomify -r spellings (regression D4: "10b") — light, builder of C09 owns the ladder
     zdir = ctx.tmp / "zoom"
     zdir.mkdir(exist_ok=True)
